@@ -26,6 +26,11 @@ pub fn generate(seed: u64, tier: Tier) -> Scenario {
         cfg.max_dim = 40;
         cfg.max_pixels = 40 * 40;
     }
+    cfg.vardct = rng.chance(1, 5);
+    if cfg.vardct {
+        cfg.max_dim = cfg.max_dim.min(40);
+        cfg.max_pixels = cfg.max_pixels.min(40 * 40);
+    }
     let case = valid_stream(&mut rng, &cfg, if tier == Tier::Quick { 3000 } else { 500 }, 30);
     let len = case.bytes.len();
     let exhaustive = len <= 4096;
@@ -84,6 +89,7 @@ pub fn digest(sc: &Scenario) -> u64 {
 }
 
 fn viol(seed: u64, sc: &Scenario, class: String, detail: String) -> Violation {
+    let class = if sc.case.has_vardct && !class.starts_with("panic:") { format!("{class}+vardct") } else { class };
     Violation { property: "C11".into(), check: "c11".into(), class, detail, seed, scenario: serde_json::to_value(sc).unwrap() }
 }
 
